@@ -224,6 +224,29 @@ func runC12(r *simkit.Run, c Cfg) {
 				if back, err := dhash.DecryptAES(n, ct, longPass); err != nil || !bytes.Equal(back, e.metadata) {
 					r.Violate("c12.roundtrip", "round trip with a %d-byte passphrase failed: %v", len(longPass), err)
 				}
+				// every truncation of the nonce and of the ciphertext, a nonce
+				// one byte too long, single-bit flips: an error, never data,
+				// never a panic
+				try := func(what string, nn, cc []byte) {
+					defer func() {
+						if p := recover(); p != nil {
+							r.Violate("c12.failclosed", "DecryptAES with %s panicked: %v", what, p)
+						}
+					}()
+					if back, err := dhash.DecryptAES(nn, cc, longPass); err == nil {
+						r.Violate("c12.failclosed", "DecryptAES with %s returned %d bytes of data", what, len(back))
+					}
+				}
+				for k := 0; k < len(n); k++ {
+					try(fmt.Sprintf("the nonce cut to %d of %d bytes", k, len(n)), n[:k], ct)
+				}
+				try("a nonce one byte too long", append(append([]byte(nil), n...), 0), ct)
+				try("no nonce", nil, ct)
+				for k := 0; k < len(ct); k += 1 + len(ct)/16 {
+					try(fmt.Sprintf("the ciphertext cut to %d of %d bytes", k, len(ct)), n, ct[:k])
+				}
+				try("a bit of the nonce flipped", flipBit(n, tp.Choose(len(n)*8, "nflip")), ct)
+				try("a bit of the ciphertext flipped", n, flipBit(ct, tp.Choose(len(ct)*8, "cflip")))
 			}
 			hvk := sha256.Sum256(vk)
 			mdKey := base58.Encode(hvk[:])
